@@ -70,6 +70,8 @@ def _safe_describe(res):
         return "undescribable: %r" % (e,)
 
 
+
+
 def plain(res):
     """operation result reduced to comparable Python data"""
     if isinstance(res, L.Content):
